@@ -116,4 +116,10 @@ CHECKS["C08"] = dict(level="model_checking", technique="TLC model checking of th
          "solvers is logged while they solve scripted systems (sizes 1-8, budgets 0-30) with failures and NaN injected at chosen evaluations, "
          "and each execution is validated event by event against the specification, invariants included; Newton started inside its basin must succeed at the root.",
     note="The seam is the CRTP child (no hook). Numerical outcomes are not modelled (any outcome is admissible to the model).", ref="8/C08")
+CHECKS["C09"] = dict(level="exploration", technique="trace validation by TLC of rank/sign-abstracted runs against the obligations of ScalarNewton.tla",
+    text="Every call of the user functor and of the user criterion made by scalarNewtonRaphson is recorded (abscissae by dense rank, function "
+         "values by sign and finiteness) for 12 function families x 8 starts x 8 brackets x 5-8 budgets (about 3 800 runs); TLC replays each "
+         "run through a small state machine that tracks the supplied bracket's validity, the evaluation count and the last criterion call, "
+         "and checks sound convergence, the iteration / evaluation budget and bracket confinement as invariants in every state.",
+    note="The iteration itself is not transcribed into TLA+ (no exhaustive model checking of the algorithm): obligations on observed runs only.", ref="8/C09")
 NOT_APPLICABLE = {}
